@@ -5,6 +5,7 @@ import Ucfg.Spec.C17
 import Ucfg.Spec.C01
 import Ucfg.Model.Ops
 import Ucfg.Spec.C03
+import Ucfg.Model.Flag
 /-
   ucfgdrv: reads one protocol case per line on stdin, runs the Lean model's
   executable definitions on it and prints one JSON result line.
@@ -541,6 +542,47 @@ def runNorm (c : Json) : R (Json × Option Json × Option String) := do
           | none, _ => pure none
   pure (model, oracle, none)
 
+/-- C19 "flags": a sequence of -flag key=value arguments -/
+def runFlags (std : Stdlib) (c : Json) : R (Json × Option Json × Option String) := do
+  let o ← getOpts c "opts"
+  let ab := boolFieldD c "autoBool" true
+  let args ← match optField c "args" with
+    | some (.arr a) => a.toList.mapM (·.getStr?)
+    | _ => pure []
+  -- per argument: did Set report an error (the loader's own error, not the sticky one)
+  let (col, setErrs) := args.foldl (fun (st : Collector × Array Json) arg =>
+    let r := flagLoad std o ab arg
+    let reported := match r with | .ok _ => false | _ => true
+    (collectorAdd o st.1 r, st.2.push (.bool reported))) (({ config := Val.empty, err := none } : Collector), #[])
+  let errJ : Json := match col.err with
+    | none => .null
+    | some e => Json.mkObj [("typed", .bool e.typed), ("reason", .str e.reason.name)]
+  let model := Json.mkObj [("config", viewOnly col.config), ("err", errJ), ("set", .arr setErrs), ("optsKept", .bool true)]
+  -- oracle (the statement, independently of the collector): the config equals merging, in order and with the
+  -- flag's options, the configs of the arguments before the first failing one
+  let oracle : Option Json := match optField c "impl" with
+    | none => none
+    | some impl =>
+      let rec go (cfg : Val) : List String → Val × Option Err
+        | [] => (cfg, none)
+        | a :: rest =>
+          match flagLoad std o ab a with
+          | .ok none => go cfg rest
+          | .ok (some x) => go (mergeCfg o cfg x) rest
+          | .err e => (cfg, some e)
+          | _ => (cfg, some { reason := .other })
+      let (want, werr) := go Val.empty args
+      let got := ((optField impl "config").getD .null).compress
+      let gerr := (optField impl "err").getD .null
+      if !(boolFieldD impl "optsKept" false) then some (failOracle "the collector dropped the flag's options")
+      else if got != (viewOnly want).compress then some (failOracle "the flag's config differs from merging the arguments in order with the flag's options")
+      else match werr, gerr with
+        | none, .null => some okOracle
+        | some _, .null => some (failOracle "a failing argument was not reported by Error()")
+        | none, _ => some (failOracle "Error() reports a failure although every argument is well formed")
+        | some _, _ => some okOracle
+  pure (model, oracle, none)
+
 def runFull (std : Stdlib) (c : Json) : R (Json × Option Json × Option String) := do
   let k ← strField c "k"
   match k with
@@ -550,6 +592,7 @@ def runFull (std : Stdlib) (c : Json) : R (Json × Option Json × Option String)
   | "ops" => do pure ((← runOpsCase std c), none, none)
   | "conv" => runConv std c
   | "norm" => runNorm c
+  | "flags" => runFlags std c
   | _ => do pure ((← runCase std c), none, none)
 
 partial def loop (std : Stdlib) (h : IO.FS.Stream) (out : IO.FS.Stream) : IO Unit := do
